@@ -295,6 +295,61 @@ func areaStrategy(r *Rng, n int, dir string) (*AreaOut, error) {
 			}
 		}
 	}
+	// ---- contents of several LMDB pages (reference oracle only): a leaf page already rewritten in this
+	// transaction, then enough inserts in front of a pending stored key to split that page, then decisions that
+	// depend on the stored value of that key and of the keys after it
+	for rep := 0; rep < 6; rep++ {
+		big := func(tag string, n int) []byte { return append([]byte(tag+":"), bytes.Repeat([]byte{byte('A' + rep)}, n)...) }
+		var stored []pair
+		for j := 0; j < 4+rep; j++ {
+			stored = append(stored, pair{[]byte(fmt.Sprintf("a%02d", j)), big("s", 60+7*j)})
+		}
+		for _, k := range []string{"m", "n", "p", "z"} {
+			stored = append(stored, pair{[]byte(k), big("R-"+k, 20+rep)})
+		}
+		var ents []tent
+		ents = append(ents, tent{[]byte("a00"), tdec{"set", big("new", 90)}}) // dirties the first leaf page
+		if rep%2 == 1 {
+			ents = append(ents, tent{[]byte("a01"), tdec{"set", nil}})
+		}
+		for j := 0; j < 30+8*rep; j++ {
+			ents = append(ents, tent{[]byte(fmt.Sprintf("b%03d", j)), tdec{"ifabsent", big("ins", 100+rep)}})
+		}
+		ents = append(ents, tent{[]byte("m"), tdec{"append", []byte("+r")}}, tent{[]byte("n"), tdec{"ifabsent", []byte("x")}}, tent{[]byte("q"), tdec{"set", []byte("new-q")}})
+		clean := pick(r, []tdec{{"keep", nil}, {"append", []byte("!")}, {"set", nil}})
+		less := keyLess(false)
+		var result []pair
+		var runErr error
+		var panicked any
+		err := inRolledBackTxn(env, func(txn *lmdb.Txn) error {
+			dbi, err := txn.OpenDBI("pages", lmdb.Create)
+			if err != nil {
+				return err
+			}
+			for _, p := range stored {
+				if err := txn.Put(dbi, p.K, p.V, 0); err != nil {
+					return err
+				}
+			}
+			func() {
+				defer func() { panicked = recover() }()
+				runErr = strategy.IterUpdate(txn, dbi, &tIter{ents: ents, clean: clean})
+			}()
+			if runErr == nil && panicked == nil {
+				result, err = dumpDBI(txn, dbi)
+				return err
+			}
+			return nil
+		})
+		if err != nil {
+			return nil, fmt.Errorf("page case %d: %w", rep, err)
+		}
+		out.OracleN++
+		hist(out.Hist, "iterupdate/several-pages")
+		if msg := strategyOracle("iterupdate", less, stored, ents, clean, result, runErr, panicked); msg != "" {
+			out.Oracle = append(out.Oracle, OracleFailure{"C19", "strategy-reference", "contents of several pages (stored: 4-9 keys a.. with 60-120-byte values, m n p z; input: rewrite a00, 30-70 inserts b... of ~105 bytes, append to m, if-absent n, set q): " + msg, map[string]any{"rep": rep, "clean": clean.Coq()}})
+		}
+	}
 	out.Cases = len(cases)
 	out.Distinct = len(nontriv)
 	for i := 0; i < 3 && i < len(cases); i++ {
